@@ -84,7 +84,9 @@ Definition mt103_c4 (m : jv) : option err :=
 Definition mt103_c5 (m : jv) : option err :=
   if any_key m k56acd && negb (any_key m k57abcd) then Some (E "C81" "57a") else None.
 Definition mt103_c6 (m : jv) : option err :=
-  if is (code (m ./ "23B")) "SPRI" && any_key m k56acd then Some (E "E16" "56a") else None.
+  if is (code (m ./ "23B")) "SPRI" && any_key m k56acd then Some (E "E16" "56a")
+  else if (is (code (m ./ "23B")) "SSTD" || is (code (m ./ "23B")) "SPAY") && present (m ./ "56D") then Some (E "E17" "56a")
+  else None.
 Definition mt103_c7 (m : jv) : list err :=
   let c := jstr (m ./ "71A" ./ "code") in
   if is c "OUR" then when (has71f m) (E "E13" "71F")
